@@ -74,6 +74,23 @@ def step_r(a, b):
     return rot_y(b) @ rot_z(a)
 
 
+def frame_lift_np(F):
+    """the construction of Proofs/AxesIndB.frame_lift: V = Rotation_z(g) Rotation_y(b) Rotation_z(a) with (a, b) the polar angles of the
+    third axis Z and g the angle of the rotated first axis; `coords F q = lor V q`.  F: (n,3,3) rows X, Y, Z"""
+    X, Z = F[:, 0], F[:, 2]
+    a = np.arctan2(Z[:, 1], Z[:, 0])
+    bb = np.arctan2(np.hypot(Z[:, 0], Z[:, 1]), Z[:, 2])
+    # spatial action of Rotation_y(b) Rotation_z(a) (templates/SL2C.lean.in rotZv / rotYv)
+    def act(v):
+        x1 = np.cos(a) * v[:, 0] + np.sin(a) * v[:, 1]
+        y1 = np.cos(a) * v[:, 1] - np.sin(a) * v[:, 0]
+        z1 = v[:, 2]
+        return np.stack([np.cos(bb) * x1 - np.sin(bb) * z1, y1, np.cos(bb) * z1 + np.sin(bb) * x1], 1)
+    RX = act(X)
+    g = np.arctan2(RX[:, 1], RX[:, 0])
+    return rot_z(g) @ step_r(a, bb)
+
+
 def mirror(U):
     V = np.conj(U).copy()
     V[..., 0, 1] *= -1
@@ -163,6 +180,7 @@ def correspond_axes(ctx, res, builds):
     n_ev = 10 if ctx.quick else 50
     stat = {"getx": 0.0, "offdiag": 0.0, "lift": 0.0, "level2": 0.0, "deeper": 0.0, "D": 0.0, "rmatrix": 0.0, "density": 0.0,
             "n_top": 0, "n_level2": 0, "n_deeper": 0, "n_D": 0, "n_r": 0, "n_density": 0, "skipped_ill": 0, "events": 0,
+            "gamma12": 0.0, "n_gamma12": 0, "vphase": 0.0, "n_vphase": 0, "n_other_sheet": 0, "lift_lean": 0.0,
             "structures": [], "density_structures": [], "max_frame_angle": 0.0, "max_gamma": 0.0, "nontrivial": 0, "density_degenerate": 0}
     first_bad = {}
     lines, plan = [], []
@@ -197,6 +215,10 @@ def correspond_axes(ctx, res, builds):
         tv = c01.rand_dir(rng, n)
         lv = c01_wigner.lor_np(U, np.concatenate([np.zeros((n, 1)), tv], -1))[:, 1:]
         stat["lift"] = max(stat["lift"], float(np.max(np.abs(lv - np.einsum("nij,nj->ni", S, tv)))))
+        Ul = frame_lift_np(F1) @ np.linalg.inv(frame_lift_np(F0))
+        stat["lift_lean"] = max(stat["lift_lean"], float(np.max(np.minimum(np.max(np.abs(Ul - U), axis=(1, 2)), np.max(np.abs(Ul + U), axis=(1, 2))))))
+        if stat["lift_lean"] > TOL:
+            bad("lift", "frame_change_exists: the SU(2) element V' V^-1 built as in Proofs/AxesIndB.frame_lift is not +-(the scipy lift of the frame rotation)", {"err": stat["lift_lean"]})
         ang_frames = np.arccos(np.clip((np.trace(S, axis1=1, axis2=2) - 1) / 2, -1, 1))
         stat["max_frame_angle"] = max(stat["max_frame_angle"], float(ang_frames.max()))
         stat["nontrivial"] += int(np.sum(ang_frames > 1e-2))
@@ -258,6 +280,20 @@ def correspond_axes(ctx, res, builds):
                     for (bz, bx, aa) in ((bz0, bx0, a), (bz1, bx1, a1)):
                         lines.append("C01h getx %s %s %s" % (fl(bz[i]), fl(bx[i]), fl(aa["rest_p"][i][1:])))
                         plan.append((b.st["name"], cn, key, float(aa["alpha"][i]), float(aa["beta"][i]), bool(ill[i])))
+            # --- (g) VALIDATED ONLY (part of the remaining link `hcancel` of Props/C01i): the two daughters of the top vertex
+            # turn the opposite way, Rotation_z(gamma_1) Rotation_z(gamma_2) = +-1
+            if len(gam) == 2:
+                (g1, i1), (g2, i2) = list(gam.values())
+                P12 = rot_z(g1) @ rot_z(g2)
+                I2 = np.eye(2)
+                e12 = np.where(i1 | i2, 0.0, np.minimum(np.max(np.abs(P12 - I2), axis=(1, 2)), np.max(np.abs(P12 + I2), axis=(1, 2))))
+                stat["gamma12"] = max(stat["gamma12"], float(e12.max()))
+                stat["n_gamma12"] += n
+                kb3 = np.where(e12 > TOL)[0]
+                if len(kb3):
+                    i = int(kb3[0])
+                    bad("gamma12", "hcancel (validated only): Rotation_z(gamma_1) Rotation_z(gamma_2) of the two daughters of the top vertex is not +-1",
+                        {"structure": b.st["name"], "chain": cn, "gamma_1": float(g1[i]), "gamma_2": float(g2[i])})
             # --- below the top vertex
             for key, a in e0.items():
                 if a["depth"] == 0:
@@ -271,6 +307,27 @@ def correspond_axes(ctx, res, builds):
                     stat["level2"] = max(stat["level2"], float(e_b.max()), float(e_a.max()))
                     stat["n_level2"] += 2 * n
                     what = "below_top_azimuth_shift fails on the implementation: one level below the top vertex the azimuth is not lowered by the gamma of the top vertex (or the polar angle changes) when the base axes change"
+                    # (f) C01i.vertex_phase_element / vertex_phase_other_sheet on the REAL D_matrix_conj: row m of the level-2
+                    # D-function is multiplied by exp(-i m gamma), times (-1)^(2j) when Rotation_z(alpha') is on the other sheet
+                    nturn = np.rint((a1["alpha"] - a["alpha"] + g) / (2 * math.pi))
+                    rz_err = np.max(np.abs(rot_z(a1["alpha"]) - ((-1.0) ** nturn)[:, None, None] * (rot_z(a["alpha"]) @ rot_z(-g))), axis=(1, 2))
+                    for j2 in (1, 2, 3, 4):
+                        z = np.zeros(n)
+                        D1 = np.asarray(dfun.D_matrix_conj(tf.constant(a1["alpha"]), tf.constant(a1["beta"]), tf.constant(z), j2))
+                        D0 = np.asarray(dfun.D_matrix_conj(tf.constant(a["alpha"]), tf.constant(a["beta"]), tf.constant(z), j2))
+                        m = np.arange(-j2 / 2, j2 / 2 + 1, 1)
+                        sgn = (-1.0) ** (j2 * nturn)
+                        pred = sgn[:, None, None] * np.exp(-1j * m[None, :, None] * g[:, None, None]) * D0
+                        e2 = np.where(ill | illm, 0.0, np.maximum(np.max(np.abs(D1 - pred), axis=(1, 2)), rz_err))
+                        stat["vphase"] = max(stat["vphase"], float(e2.max()))
+                        stat["n_vphase"] += n
+                        stat["n_other_sheet"] += int(np.sum((nturn % 2 != 0) & ~(ill | illm))) if j2 == 1 else 0
+                        kb2 = np.where(e2 > TOL)[0]
+                        if len(kb2):
+                            i = int(kb2[0])
+                            bad("vphase", "vertex_phase_element / vertex_phase_other_sheet fails on the implementation: the level-2 D_matrix_conj row m is not (+-1)^(2j) exp(-i m gamma) times the one computed with the first axes",
+                                {"structure": b.st["name"], "chain": cn, "decay/particle": key, "2j": j2, "max_abs_diff": float(e2[i]), "gamma": float(g[i]),
+                                 "alpha (z,x)": float(a["alpha"][i]), "alpha (z',x')": float(a1["alpha"][i]), "turns": float(nturn[i])})
                 else:
                     e_a = np.where(ill, 0.0, np.abs(wrap(a1["alpha"] - a["alpha"])))
                     stat["deeper"] = max(stat["deeper"], float(e_b.max()), float(e_a.max()))
@@ -358,6 +415,9 @@ def correspond_axes(ctx, res, builds):
         "top_vertex_pairs_compared": stat["n_top"], "worst_offdiagonal_of_r'Ur^-1": stat["offdiag"], "worst_su2_lift_vs_lor": stat["lift"],
         "model_getx_queries": len(lines), "worst_getx_model_vs_real": stat["getx"],
         "level2_angles_compared": stat["n_level2"], "worst_level2": stat["level2"], "deeper_angles_compared": stat["n_deeper"], "worst_deeper": stat["deeper"],
+        "worst_su2_lift_lean_construction_vs_scipy(up to sign)": stat["lift_lean"],
+        "level2_D_matrices_compared(vertex_phase)": stat["n_vphase"], "worst_vertex_phase": stat["vphase"], "level2_vertices_on_the_other_sheet": stat["n_other_sheet"],
+        "top_vertices_gamma1_gamma2_compared(validated only)": stat["n_gamma12"], "worst_Rz(gamma1)Rz(gamma2)_vs_+-1": stat["gamma12"],
         "D_matrices_compared": stat["n_D"], "worst_D_compose": stat["D"], "r_matrices_compared(validated only)": stat["n_r"], "worst_r_matrix": stat["rmatrix"],
         "densities_compared(validated only)": stat["n_density"], "density_structures": stat["density_structures"], "worst_density_rel": stat["density"],
         "density_degenerate_events": stat["density_degenerate"], "ill_conditioned_skipped": stat["skipped_ill"],
